@@ -673,6 +673,17 @@ class Interp:
             if t['k'] == 'goto':
                 bb = t['target']
                 continue
+            if t['k'] == 'call' and t['target'] is not None:
+                callee = t['callee']
+                args = [self.operand(st, pf, a) for a in t['args']]
+                handled, val = self.call_model(st, pf, callee['path'], callee, args, t)
+                if not handled:
+                    if not callee['has_mir'] or callee['key'] is None:
+                        raise Unsupported('call to %s in promoted body' % callee['path'])
+                    val = self.call_sync(st, callee['key'], args)
+                self.assign(st, pf, t['dest'], val)
+                bb = t['target']
+                continue
             raise Unsupported('terminator %s in promoted body' % t['k'])
         raise Unsupported('promoted body too long')
 
@@ -814,6 +825,10 @@ class Interp:
         if op in ('Eq', 'Ne', 'Lt', 'Le', 'Gt', 'Ge'):
             if at['k'] not in ('int', 'bool', 'char'):
                 raise Unsupported('comparison of %s' % at['k'])
+            if ty_signed(at) and op not in ('Eq', 'Ne') and is_const(a) and is_const(b):
+                sa_ = a[2] - (1 << a[1]) if a[2] >> (a[1] - 1) else a[2]
+                sb_ = b[2] - (1 << b[1]) if b[2] >> (b[1] - 1) else b[2]
+                return TRUE if {'Lt': sa_ < sb_, 'Le': sa_ <= sb_, 'Gt': sa_ > sb_, 'Ge': sa_ >= sb_}[op] else FALSE
             if ty_signed(at) and op not in ('Eq', 'Ne'):
                 for t in (a, b):
                     if is_const(t):
@@ -868,7 +883,23 @@ class Interp:
                 return ('tuple', (val, ov))
             return val
         if op == 'Cmp':
-            raise Unsupported('three-way comparison')
+            if at['k'] not in ('int', 'bool', 'char'):
+                raise Unsupported('three-way comparison of %s' % at['k'])
+            if ty_signed(at):
+                for t in (a, b):
+                    if is_const(t):
+                        if t[2] >> (t[1] - 1):
+                            raise Unsupported('signed comparison with negative constant')
+                    elif bits_of(t)[-1] != 0:
+                        raise Unsupported('signed comparison of possibly negative symbolic value')
+            oid = [i for i, d_ in self.prog.adts.items() if d_['path'] == 'core::cmp::Ordering']
+            if len(oid) != 1:
+                raise Unsupported('three-way comparison: core::cmp::Ordering not in the fact file')
+            if self.need(st, mk_cmp('Lt', a, b)):
+                return ('adt', oid[0], 0, ())
+            if self.need(st, mk_cmp('Eq', a, b)):
+                return ('adt', oid[0], 1, ())
+            return ('adt', oid[0], 2, ())
         raise Unsupported('binop %s' % op)
 
     # ------------------------------------------------------------------ calls and models
@@ -1128,6 +1159,98 @@ class Interp:
         if P == 'core::slice::<impl [T]>::fill':
             self.fill(st, args[0], args[1])
             return True, UNIT
+        m = re.match(r'^core::slice::<impl \[T\]>::(first_chunk|last_chunk|split_first_chunk|split_last_chunk|as_array)(_mut)?$|^core::slice::<impl \[T\]>::(as_mut_array)$', P)
+        if m and args and args[0][0] == 'slice':
+            # a reference to an array inside a slice is represented as the slice value of that window
+            which = m.group(1) or 'as_array'
+            mk = re.search(r'::<(\d+)>$', callee.get('key') or '')
+            if not mk:
+                raise Unsupported('%s without a constant length' % which)
+            n_ = K(USIZE, int(mk.group(1)))
+            sl = args[0]
+            ln = self.slice_len(sl)
+            ret_ty = self.prog.instances[callee['key']]['sig']['output']
+            fits = mk_cmp('Eq', n_, ln) if which == 'as_array' else mk_cmp('Le', n_, ln)
+            if not self.need(st, fits):
+                return True, ('adt', ret_ty['id'], 0, ())
+            lo, hi = sl[2], sl[3]
+            if which in ('first_chunk', 'as_array'):
+                val = ('slice', sl[1], lo, self.add(lo, n_))
+            elif which == 'last_chunk':
+                val = ('slice', sl[1], self.sub(hi, n_), hi)
+            elif which == 'split_first_chunk':
+                mid = self.add(lo, n_)
+                val = ('tuple', (('slice', sl[1], lo, mid), ('slice', sl[1], mid, hi)))
+            else:
+                mid = self.sub(hi, n_)
+                val = ('tuple', (('slice', sl[1], lo, mid), ('slice', sl[1], mid, hi)))
+            return True, ('adt', ret_ty['id'], 1, (val,))
+        m = re.match(r"^core::array::<impl core::convert::TryFrom<&'a (mut )?\[T\]> for &'a (mut )?\[T; N\]>::try_from$|^core::array::<impl core::convert::TryFrom<&(mut )?\[T\]> for \[T; N\]>::try_from$", P)
+        if m and args and args[0][0] == 'slice':
+            by_value = P.endswith('for [T; N]>::try_from')
+            mk = re.search(r'; (\d+)\]>::try_from$', callee.get('key') or '')
+            if not mk:
+                raise Unsupported('array try_from without a constant length')
+            n_ = K(USIZE, int(mk.group(1)))
+            sl = args[0]
+            ret_ty = self.prog.instances[callee['key']]['sig']['output']
+            if not self.need(st, mk_cmp('Eq', n_, self.slice_len(sl))):
+                err_ty = self.prog.adts[ret_ty['id']]['variants'][1]['fields'][0]['ty']
+                return True, ('adt', ret_ty['id'], 1, (('adt', err_ty['id'], 0, (UNIT,)),))
+            if by_value:
+                lo = self.conc(st, sl[2])
+                val = ('array', tuple(self.read_elem(st, sl[1], self.add(lo, K(USIZE, i))) for i in range(n_[2])))
+            else:
+                val = ('slice', sl[1], sl[2], self.add(sl[2], n_))
+            return True, ('adt', ret_ty['id'], 0, (val,))
+        if P == 'core::slice::<impl [T]>::swap' and args[0][0] == 'slice':
+            sl, i_, j_ = args
+            ln = self.slice_len(sl)
+            for x in (i_, j_):
+                if not self.need(st, mk_cmp('Lt', x, ln)):
+                    raise Panic('index', 'index out of bounds: the len is %s but the index is %s' % (show_term(ln), show_term(x)))
+            ti = (sl[1][0], sl[1][1] + (('i', self.add(sl[2], i_)),))
+            tj = (sl[1][0], sl[1][1] + (('i', self.add(sl[2], j_)),))
+            vi, vj = self.read(st, ti), self.read(st, tj)
+            self.write(st, ti, vj)
+            self.write(st, tj, vi)
+            return True, UNIT
+        if P == 'core::slice::<impl [T]>::copy_within' and args[0][0] == 'slice':
+            sl, rng, dest = args
+            if rng[0] != 'adt' or len(rng[3]) != 2 or self.prog.adts[rng[1]]['path'] != 'core::ops::Range':
+                raise Unsupported('copy_within with a range that is not start..end')
+            a_, b_ = self.conc(st, rng[3][0]), self.conc(st, rng[3][1])
+            dest = self.conc(st, dest)
+            ln = self.slice_len(sl)
+            if not self.need(st, mk_cmp('Le', a_, b_)):
+                raise Panic('slice_index', 'slice index starts at %s but ends at %s' % (show_term(a_), show_term(b_)))
+            if not self.need(st, mk_cmp('Le', b_, ln)):
+                raise Panic('slice_index', 'range end index %s out of range for slice of length %s' % (show_term(b_), show_term(ln)))
+            cnt = self.sub(b_, a_)
+            if not self.need(st, mk_cmp('Le', self.add(dest, cnt), ln)):
+                raise Panic('copy_within', 'dest is out of bounds')
+            if not (is_const(a_) and is_const(b_) and is_const(dest)) or cnt[2] > 64:
+                raise Unsupported('copy_within with symbolic bounds')
+            vals = [self.read_elem(st, sl[1], self.add(sl[2], K(USIZE, a_[2] + i))) for i in range(cnt[2])]
+            for i, v_ in enumerate(vals):
+                self.write(st, (sl[1][0], sl[1][1] + (('i', self.add(sl[2], K(USIZE, dest[2] + i))),)), v_)
+            return True, UNIT
+        if P == 'core::slice::<impl [T]>::windows' and args[0][0] == 'slice':
+            sl, size = args
+            if not is_const(size):
+                raise Unsupported('windows with a symbolic size')
+            if size[2] == 0:
+                raise Panic('windows', 'window size must be non-zero')
+            return True, ('model', 'windows', sl, size, K(USIZE, 0))
+        if P == "<core::slice::Windows<'a, T> as core::iter::Iterator>::next":
+            ref = args[0]
+            it = self.read(st, ref[1])
+            ret_ty = self.prog.instances[callee['key']]['sig']['output']
+            newit, item = self.model_next(st, it)
+            if item is None:
+                return True, ('adt', ret_ty['id'], 0, ())
+            self.write(st, ref[1], newit)
+            return True, ('adt', ret_ty['id'], 1, (item,))
         if P in ('core::slice::<impl [T]>::split_at', 'core::slice::<impl [T]>::split_at_mut'):
             sl, mid = args
             if sl[0] != 'slice':
@@ -1273,7 +1396,7 @@ class Interp:
 
     def as_iter(self, st, v, callee):
         """IntoIterator::into_iter of the kinds of value the models know."""
-        if v[0] == 'model' and v[1] in ('iter', 'zip', 'arrayiter', 'chunks', 'rev', 'copied'):
+        if v[0] == 'model' and v[1] in ('iter', 'zip', 'arrayiter', 'chunks', 'rev', 'copied', 'windows'):
             return v
         if v[0] == 'array':
             return ('model', 'arrayiter', v, K(USIZE, 0))
@@ -1323,6 +1446,15 @@ class Interp:
             if item is None:
                 return it, None
             return ('model', 'copied', ni), self.read(st, item[1])
+        if it[1] == 'windows':
+            sl, size, pos = it[2], it[3], it[4]
+            if pos[2] > 300:
+                raise Unsupported('window loop does not terminate within 300 iterations')
+            ln = self.slice_len(sl)
+            if self.need(st, mk_cmp('Le', K(USIZE, pos[2] + size[2]), ln)):
+                item = ('slice', sl[1], self.add(sl[2], pos), self.add(sl[2], K(USIZE, pos[2] + size[2])))
+                return ('model', 'windows', sl, size, K(USIZE, pos[2] + 1)), item
+            return it, None
         if it[1] == 'chunks':
             sl, size, pos, exact = it[2], it[3], it[4], it[5]
             ln = self.slice_len(sl)
@@ -1431,7 +1563,7 @@ class Interp:
             v = self.read(st, ref[1])
         except Exception:
             return False
-        return isinstance(v, tuple) and len(v) > 1 and v[0] == 'model' and v[1] in ('iter', 'zip', 'arrayiter', 'chunks', 'rev', 'copied')
+        return isinstance(v, tuple) and len(v) > 1 and v[0] == 'model' and v[1] in ('iter', 'zip', 'arrayiter', 'chunks', 'rev', 'copied', 'windows')
 
     def closure_key_of_value(self, st, f):
         """The instance of a closure value: its definition path, monomorphised as the innermost frame that defines it."""
@@ -1447,10 +1579,13 @@ class Interp:
         raise Unsupported('cannot identify the instance of closure %s (%d candidates)' % (f[1], len(cands)))
 
     def iter_closure_method(self, st, meth, callee, args):
+        ckey_from_value = False
         try:
             ckey = self.closure_key_of(callee)
         except Unsupported:
-            ckey = self.closure_key_of_value(st, args[2] if meth == 'fold' else args[1])
+            ckey_from_value = True
+            fv = args[2] if meth == 'fold' else args[1]
+            ckey = None if fv[0] == 'ref' else self.closure_key_of_value(st, fv)
         ret_ty = self.prog.instances[callee['key']]['sig']['output']
         itref = args[0]
         by_value = itref[0] == 'model'
@@ -1459,6 +1594,14 @@ class Interp:
             acc, f = args[1], args[2]
         else:
             f = args[1]
+        f_by_ref = None
+        if f[0] == 'ref':
+            # `&mut F` used as the callable (core's adapters pass `&mut self.f`): call the closure behind it
+            inner = self.read(st, f[1])
+            if inner[0] == 'closure':
+                f_by_ref = f
+                if ckey_from_value:
+                    ckey = self.closure_key_of_value(st, inner)
         # the closure is passed by value: keep it in a permanent slot so that `&mut f` has a target
         slot = Frame()
         slot.fid = st.next_fid
@@ -1473,7 +1616,9 @@ class Interp:
         slot.ret_bb = None
         slot.call_span = None
         st.perm[slot.fid] = slot
-        fref = ('ref', (('local', slot.fid, 0), ()))
+        fref = f_by_ref or ('ref', (('local', slot.fid, 0), ()))
+        if ckey is None:
+            raise Unsupported('a callable that is not a closure value is passed to a modelled iterator method')
         n_ = 0
         result = None
         pos = 0
